@@ -558,6 +558,20 @@ def run(pid, tier, replay=None):
                 v.violation(f"[{label}] {fid}: {what}", {"id": fid, "source": src, "expect": exp, "build": label,
                             "observed": {"status": r_.get("status"), "code": r_.get("code"), "stdout": r_.get("stdout", "")[:600], "stderr": r_.get("stderr", "")[-600:],
                                          "panic": r_.get("panic")}})
+        if not replay and label == builds[0][0]:
+            # the same families under a collection at every allocation: same outcome (frames, handlers, errors in flight,
+            # fibers being split off and natives calling back are all live across a collection)
+            cases = [{"id": f"g{i}", "files": {"/v/main.lay": src}, "main": "/v/main.lay", "stack_mb": 64, "gc": {"every": 1, "force_full": True}}
+                     for i, (fid, src, exp) in enumerate(fams)]
+            resg = vlib.run_batch(binary, cases, per_case_timeout=120)
+            for i, (fid, src, exp) in enumerate(fams):
+                r_ = resg[f"g{i}"]
+                judged += 1
+                what = judge_family(exp, r_)
+                if what:
+                    v.violation(f"[{label}+gc] {fid}: {what}", {"id": fid, "source": src, "expect": exp, "build": label + "+gc",
+                                "observed": {"status": r_.get("status"), "code": r_.get("code"), "stdout": r_.get("stdout", "")[:600],
+                                             "stderr": r_.get("stderr", "")[-600:], "panic": r_.get("panic")}})
         if not replay:
             cases = [{"id": f"d{i}", "files": {"/v/main.lay": src}, "main": "/v/main.lay"} for i, (did, src) in enumerate(DEEP)]
             res = vlib.run_batch(binary, cases, per_case_timeout=120)
